@@ -153,9 +153,19 @@ fn place_program(rng: &mut Rng, world: &mut World, program: &catalogue::Program,
             argv.push(path);
         }
     }
-    for r in refs {
+    // the same file twice in one list: a DuplicateFile warning, which (like any warning) must not change anything else
+    if rng.chance(1, 5) && !argv.is_empty() {
+        let again = rng.pick(&argv).clone();
+        let at = rng.usize_below(argv.len() + 1);
+        argv.insert(at, if rng.chance(1, 2) { format!("./{again}") } else { again });
+    }
+    for r in &refs {
         argv.push("-R".into());
-        argv.push(r);
+        argv.push(r.clone());
+    }
+    if rng.chance(1, 8) && !refs.is_empty() {
+        argv.push("-R".into());
+        argv.push(format!("./{}", rng.pick(&refs)));
     }
     argv
 }
